@@ -14,6 +14,8 @@ CONSTANTS NP,       \* pairs of series over timestamps 1..NP in nine container s
           NT,       \* triples of series over 1..NT in three shapes
           NF,       \* frame x frame x (series | leaf) over 1..NF in two shapes
           NA,       \* pairs / triples of bare arrays of lengths 0..NA
+          NS,       \* pairs of series over 1..NS whose indices all begin at 1 and end at NS: same first and last timestamp, often the
+                    \* same length, different interior points (irregular data; 0 = none)
           NC,       \* three frames on fixed indices over the column-set shapes (equal-sized overlapping / disjoint /
                     \* identical / nested / single-column sets) in NC container shapes (0 = none)
           Light     \* TRUE: fewer container shapes and frame variants (the laws do not depend on the shape)
@@ -30,7 +32,9 @@ ColSets(i) == IF i = 1 THEN (IF Light THEN {{"a", "b"}} ELSE {{"a", "b"}, {"a", 
 ColNo(c) == CHOOSE j \in 1..Len(ColU) : ColU[j] = c
 FrU(i, n) == UNION {UNION {{MkF(I, C, LAMBDA c, x : IF x \in Mrow \/ (c = "b" /\ x \in Mb) THEN NaNC ELSE VFlt(100 * i + 10 * ColNo(c) + x, 1))
                           : Mrow \in (IF Light /\ i = 2 THEN {{}} ELSE SUBSET Mb)} : Mb \in SUBSET I} : I \in SUBSET (1..n), C \in ColSets(i)}
+\* (the dtype of an array is a matter of rendering: an array without NaN may be an integer array; array 2 may also be boolean)
 ArrU(i, n0) == UNION {{[k |-> "a", v |-> [p \in 1..n |-> IF p \in M THEN NaNC ELSE VFlt(10 * i + p, 1)]] : M \in SUBSET (1..n)} : n \in 0..n0}
+               \cup (IF i = 2 THEN {[k |-> "a", v |-> [p \in 1..n |-> VBool(p % 2 = 1)]] : n \in 1..n0} ELSE {})
 
 Leaf(n) == [k |-> "x", id |-> n]
 L(xs) == [k |-> "l", items |-> xs]
@@ -69,14 +73,19 @@ Arrays  == IF NA = 0 THEN {} ELSE {Shape2(s, a, b) : s \in {1, 2, 3}, a \in ArrU
 \* not always the first / last frame; equal-sized sets that overlap (ab, bc), are disjoint (ab, cd), identical (ab, ab),
 \* nested (abc, bc), single columns (p, q: not "multi-column", they keep theirs)
 CF(i, I, C) == MkF(I, C, LAMBDA c, x : IF i = 2 /\ c = "c" /\ x = 2 THEN NaNC ELSE VFlt(100 * i + 10 * ColNo(c) + x, 1))
-CSets1 == {{"a", "b"}, {"a", "b", "c"}, {"p"}}
-CSets2 == {{"b", "c"}, {"c", "d"}, {"a", "b"}, {"q"}}
+\* (abd, acd: as many columns, the same first and the same last one, another one in between)
+CSets1 == {{"a", "b"}, {"a", "b", "c"}, {"a", "b", "d"}, {"p"}}
+CSets2 == {{"b", "c"}, {"c", "d"}, {"a", "b"}, {"a", "c", "d"}, {"q"}}
 CSets3 == {{"a", "c"}, {"b", "c"}, {"q"}}
 ShapeC(s) == CASE s = 1 -> 1 [] s = 2 -> 4 [] s = 3 -> 5
 ColFrames == IF NC = 0 THEN {} ELSE {Shape3(ShapeC(s), CF(1, {1, 2}, C1), CF(2, {2, 3}, C2), CF(3, {1, 2, 3}, C3))
                                      : s \in 1..NC, C1 \in CSets1, C2 \in CSets2, C3 \in CSets3}
-Trees == Pairs \cup Triples \cup Frames \cup Arrays \cup ColFrames
-NX == Max({NP, NT, NF, IF NC > 0 THEN 3 ELSE 0})
+\* irregular indices with a common span
+SpanU(i) == UNION {{MkS({1, NS} \cup J, LAMBDA x : IF x \in M THEN NaNC ELSE VFlt(10 * i + x, 1)) : M \in {{}, {2}}} : J \in SUBSET (2..(NS - 1))}
+Spans == IF NS = 0 THEN {} ELSE {Shape2(s, a, b) : s \in {1, 7}, a \in SpanU(1), b \in SpanU(2)}
+                                \cup (IF Light THEN {} ELSE {Shape3(4, a, b, c) : a \in SpanU(1), b \in SpanU(2), c \in {MkS({1, 2, NS}, LAMBDA x : VFlt(30 + x, 1)), MkS({1, NS - 1, NS}, LAMBDA x : VFlt(30 + x, 1))}})
+Trees == Pairs \cup Triples \cup Frames \cup Arrays \cup ColFrames \cup Spans
+NX == Max({NP, NT, NF, NS, IF NC > 0 THEN 3 ELSE 0})
 Hows == {"ij", "oj", "lj", "rj"}
 IsArrays(tr) == TsLeaves(tr) = <<>> /\ ArrLeaves(tr) # <<>>
 Pols(tr) == IF IsArrays(tr) THEN {[how |-> h, t |-> <<>>] : h \in Hows} \cup {[how |-> "ex", t |-> <<>>, n |-> n] : n \in (IF Light THEN {0, NA + 1} ELSE 0..(NA + 1))}
@@ -84,7 +93,10 @@ Pols(tr) == IF IsArrays(tr) THEN {[how |-> h, t |-> <<>>] : h \in Hows} \cup {[h
 Methods == {"none", "ffill", "bfill"}
 \* explicit column sets: some frames have some of them; a single column; one nobody has
 ExCols == IF Light THEN {<<"a", "c">>} ELSE {<<"a", "c">>, <<"b">>, <<"c", "d", "e">>}
-ColPols(tr) == IF MultiLeaves(tr) # <<>> THEN {ColPol(h) : h \in Hows} \cup {NoCols} \cup {ColEx(cs) : cs \in ExCols} ELSE {ColPol("ij")}
+\* (Light: the frames over all indices and NaN masks meet four of the column policies, the column-set shapes meet them all)
+ColPols(tr) == IF MultiLeaves(tr) = <<>> THEN {ColPol("ij")}
+               ELSE IF tr \in Frames THEN (IF Light THEN {ColPol("ij"), ColPol("oj"), ColPol("rj"), NoCols} ELSE {ColPol(h) : h \in Hows} \cup {NoCols})
+               ELSE {ColPol(h) : h \in Hows} \cup {NoCols} \cup {ColEx(cs) : cs \in ExCols}
 
 Init == tree \in Trees /\ pol \in Pols(tree) /\ m \in Methods /\ colpol \in ColPols(tree) /\ done = FALSE /\ res = <<>>
 InitGen == tree \in Trees /\ pol = [how |-> "ij", t |-> <<>>] /\ m = "none" /\ colpol = ColPol("ij") /\ done = FALSE /\ res = <<>>
